@@ -193,7 +193,9 @@ func genCase(t *rapid.T, thorough bool) Case {
 	if thorough {
 		o.BigTips = 120
 	}
-	if c.Chain == "newick-nexus" || c.Chain == "multinewick" {
+	if c.Chain == "newick-nexus" || c.Chain == "multinewick" || c.Chain == "newick-phyloxml" || c.Chain == "nexus-phyloxml" {
+		// p-values next to supports: kept by Newick and Nexus; PhyloXML has no place for them, the
+		// supports themselves must come back
 		o.Pvals = true
 	}
 	if c.Chain == "single-multi" {
